@@ -143,6 +143,8 @@ pub struct SrcEval<'a> {
     off: Option<(i32, i32)>,
     /// the total sampling matrix exists and is finite
     sampling_finite: bool,
+    /// device -> user space (f64), for gradients whose defined region is decided here
+    inv: Option<[f64; 6]>,
 }
 
 impl<'a> SrcEval<'a> {
@@ -159,7 +161,8 @@ impl<'a> SrcEval<'a> {
                 }
             }
         }
-        SrcEval { spec, ab, off, sampling_finite }
+        let inv = crate::model::img::mat_inverse(&crate::model::img::xf64(xf));
+        SrcEval { spec, ab, off, sampling_finite, inv }
     }
     pub fn at(&self, x: i32, y: i32) -> Option<u32> {
         match self.spec {
@@ -194,7 +197,20 @@ impl<'a> SrcEval<'a> {
                     None
                 }
             }
-            SrcSpec::TwoCircle { .. } => None,
+            SrcSpec::TwoCircle { .. } => {
+                // where no circle of the family passes (robustly: the pixel centre and four points
+                // a quarter pixel around it) the gradient is transparent; elsewhere it is C12's
+                let inv = self.inv?;
+                let px_user = ((inv[0] * inv[0] + inv[1] * inv[1]).sqrt()).max((inv[2] * inv[2] + inv[3] * inv[3]).sqrt());
+                for (dx, dy) in [(0.0, 0.0), (-0.25, -0.25), (0.25, -0.25), (-0.25, 0.25), (0.25, 0.25)] {
+                    let (ux, uy) = crate::model::img::mat_apply(&inv, x as f64 + 0.5 + dx, y as f64 + 0.5 + dy);
+                    match crate::model::grad::t_at(self.spec, ux, uy, px_user) {
+                        crate::model::grad::TVal::Empty => {}
+                        _ => return None,
+                    }
+                }
+                Some(0)
+            }
         }
     }
 }
